@@ -162,11 +162,13 @@ func genHostile(rt *rapid.T, tn string, maxSize int, hint int) (*CaseBytes, []st
 		return &CaseBytes{Type: tn, W: w}, []string{"hostile-constants"}, true
 	case 2: // valid, unmutated
 		o := DefaultOpts(Wire)
+		o.HugeObj = 0 // shards run under an address-space limit
 		o.BigProb, o.MaxList = 30, maxSize
 		v, _ := GenValue(rt, tn, o)
 		return &CaseBytes{Type: tn, W: Render(v, nil).Bytes}, []string{"valid"}, false
 	default:
 		o := DefaultOpts(Wire)
+		o.HugeObj = 0 // shards run under an address-space limit
 		o.BigProb, o.MaxList = 60, 600
 		if rapid.IntRange(0, 7).Draw(rt, "bigbase") == 0 { // a large valid message as the base of the mutation
 			o.BigProb, o.MaxList = 3, 8000
